@@ -49,7 +49,11 @@ def graph_scripts(c, b, lazy, algs, depth):
        % (b, "TRUE" if lazy else "FALSE", depth, c.tier), "MCHashReal B=%d LAZY=%s depth %d (%s piece alphabet): labelled graph for replay" % (b, lazy, depth, c.tier),
        extra=["-dump", "dot,actionlabels", dump], workers=1)
     g = Graph(dump + ".dot")
-    walks = g.covering_walks(maxlen=30)
+    allwalks = g.covering_walks(maxlen=30)
+    return _script(g, allwalks, algs, b), _script(g, allwalks[::3], algs, b), len(g.edges), len(allwalks)
+
+
+def _script(g, walks, algs, b):
     lines = []
     for ai, (alg, n) in enumerate(algs):
         for init, walk in walks:
@@ -63,7 +67,20 @@ def graph_scripts(c, b, lazy, algs, depth):
                     lines.append("clone %s %s" % (args[0], args[1]))
                 else:
                     lines.append("%s %s" % ({"DoReset": "reset", "DoFinReset": "finreset", "DoFin": "fin"}[act], args[0]))
-    return "\n".join(lines) + "\n", len(g.edges), len(walks)
+            # probe: whatever state the walk ended in, every live instance must still give the digest of its ghost message,
+            # and behave like a new one afterwards
+            endnode = g.edges[walk[-1]][1] if walk else init
+            ftxt = g.field(endnode, "len")
+            if ":>" in ftxt:
+                lens = {int(a): int(b_) for a, b_ in re.findall(r"(\d+) :> (-?\d+)", ftxt)}
+            else:
+                lens = dict(enumerate((int(x) for x in re.findall(r"-?\d+", ftxt)), start=1))
+            for i, ln in sorted(lens.items()):
+                if ln >= 0:
+                    lines.append("finreset %d" % i)
+                    lines.append("upd %d %d" % (i, [1, b, b + 1][(ai + i) % 3]))
+                    lines.append("finreset %d" % i)
+    return "\n".join(lines) + "\n"
 
 
 def _canary(ep):
@@ -85,19 +102,24 @@ def run(c):
     depth = 4 if c.thorough else 3
     edges = walks = 0
     script = ""
+    script_dbg = ""
     for b, lazy, algs in CLASSES:
-        s, ne, nw = graph_scripts(c, b, lazy, algs, depth)
+        s, s3, ne, nw = graph_scripts(c, b, lazy, algs, depth)
         script += s
         edges += ne * len(algs)
         walks += nw * len(algs)
+        # the quick tier replays a third of the walks in the debug build
+        script_dbg += s if c.thorough else s3
     spath = os.path.join(wd, "hash.script")
     open(spath, "w").write(script)
+    spath_dbg = os.path.join(wd, "hash-dbg.script")
+    open(spath_dbg, "w").write(script_dbg)
     c.cov["graph_edges_replayed"] = edges
     c.cov["replay_walks"] = walks
     traces = 0
     for build in ["std-rel", "std-dbg"]:
         binary = vlib.build(build)
-        for driver, args in (("hash-script", ["--script", spath]), ("hash-rand", ["--tier", c.tier])):
+        for driver, args in (("hash-script", ["--script", spath_dbg if build == "std-dbg" else spath]), ("hash-rand", ["--tier", c.tier])):
             trace = os.path.join(wd, "%s-%s.ndjson" % (driver, build))
             vlib.run_harness(binary, [driver, "--seed", str(c.seed)] + args, out=trace)
             recs, eps, r, _ = vlib.validate_episodes(c, "TraceHashBuf", trace, _describe(build), _canary, "%s (%s)" % (driver, build))
